@@ -236,6 +236,22 @@ func VerifScenarios() []VScenario {
 		b.pseudo(l, "ChanServ")
 		b.user("a")
 	})
+	mk("banned-member", func(b *vbuilder) { // b joined #c and was banned afterwards: still a member
+		b.config(vCfgBase)
+		a := b.user("a")
+		bb := b.user("b")
+		b.user("c")
+		b.line(a, "JOIN #c")
+		b.line(bb, "JOIN #c")
+		b.lines(a, "MODE #c +b b!*@*", fmt.Sprintf("MODE #c +b *!*@robust/0x%x", bb))
+	})
+	mk("user-turned-link", func(b *vbuilder) { // a registered user whose session then authenticates as a services link
+		b.config(vCfgBase)
+		a := b.user("a")
+		b.user("b")
+		b.line(a, "JOIN #c")
+		b.lines(a, "PASS :services=svcpw", "SERVER "+vSrvName+" 1 :Services for IRC Networks")
+	})
 	mk("glined", func(b *vbuilder) { // address of former session b banned by an operator
 		b.config(vCfgBase)
 		a := b.user("a")
